@@ -93,6 +93,7 @@ func e11RootCase(seed uint64, L, mask int, n int) Case {
 		h2 := add(cl, "sub", nil, true)
 		h3 := add(fc, "sub", nil, true)
 		var stalled []*node
+		var stalledFiltered *node
 		if mask&1 != 0 {
 			stalled = append(stalled, add(t.root, "sub", nil, false))
 		}
@@ -103,7 +104,8 @@ func e11RootCase(seed uint64, L, mask int, n int) Case {
 			stalled = append(stalled, add(fc, "sub", nil, false))
 		}
 		if mask&8 != 0 {
-			stalled = append(stalled, add(t.root, "subwf", kit.TNull(), false))
+			stalledFiltered = add(t.root, "subwf", kit.TNull(), false)
+			stalled = append(stalled, stalledFiltered)
 		}
 		var wholeClone *node
 		if mask&16 != 0 {
@@ -162,6 +164,15 @@ func e11RootCase(seed uint64, L, mask int, n int) Case {
 					r.V("C10", "cache-not-current", "after %d events the filtered (accept-all) clone's cache is %v, the root's is %v", i+1, b, a)
 					return
 				}
+				if stalledFiltered != nil {
+					// the stalled consumer loses events, its cache must not lose updates
+					c, _ := cacheSnap(stalledFiltered.cc.Cache())
+					r.Add("cache-current-checks", 1)
+					if !a.Equal(c) {
+						r.V("C10", "stalled-subscription-cache-stale", "after %d events the cache of the stalled (never reading) accept-all filtered subscription is %v, the root's is %v", i+1, c, a)
+						return
+					}
+				}
 			}
 		}
 		g.barrier()
@@ -178,6 +189,11 @@ func e11RootCase(seed uint64, L, mask int, n int) Case {
 		b, _ := cacheSnap(fc.cc.Cache())
 		if !a.Equal(b) {
 			r.V("C10", "cache-not-current", "final: filtered clone cache %v != root cache %v", b, a)
+		}
+		if stalledFiltered != nil {
+			if c, _ := cacheSnap(stalledFiltered.cc.Cache()); !a.Equal(c) {
+				r.V("C10", "stalled-subscription-cache-stale", "final: cache of the stalled accept-all filtered subscription is %v, the root's is %v", c, a)
+			}
 		}
 		// now drain the stalled consumers
 		min := L
